@@ -178,6 +178,15 @@ func lensRect(r *rand.Rand, ctr s2.Point) (s2.Rect, s2.Cell, []s2.Point, bool) {
 	return rc, cell, pts, true
 }
 
+// fineBoundRegion is a user-defined Region: it behaves like the region it wraps, except that its
+// CellUnionBound is a fine covering of several hundred cells (any Region implementation may return one).
+type fineBoundRegion struct {
+	s2.Region
+	bound []s2.CellID
+}
+
+func (f fineBoundRegion) CellUnionBound() []s2.CellID { return append([]s2.CellID(nil), f.bound...) }
+
 func genRegion(r *rand.Rand) *region {
 	ctr := gen.RandCenter(r)
 	rg := &region{center: ctr}
@@ -203,6 +212,17 @@ func genRegion(r *rand.Rand) *region {
 		rg.r, rg.kind, rg.diam = cp, "Cap", 2*rad
 		rg.in = cp.ContainsPoint
 		rg.points = append(rg.points, extra...)
+		if len(extra) == 0 && rad < 1.5 && r.Intn(4) == 0 {
+			// the same cap behind a user-defined Region whose CellUnionBound is a covering of hundreds of cells
+			lvl := s2.MinWidthMetric.MaxLevel(2 * rad / float64(10+r.Intn(20)))
+			if lvl > 30 {
+				lvl = 30
+			}
+			fine := (&s2.RegionCoverer{MinLevel: lvl, MaxLevel: lvl, LevelMod: 1, MaxCells: 1 << 20}).Covering(cp)
+			if len(fine) > 60 && len(fine) < 5000 {
+				rg.r, rg.kind = fineBoundRegion{Region: cp, bound: fine}, "CapWithFineCellUnionBound"
+			}
+		}
 		for k := 0; k < 12; k++ {
 			rg.points = append(rg.points, gen.Near(r, ctr, rad*(1-1e-15)), gen.Near(r, ctr, rad*r.Float64()))
 		}
